@@ -86,9 +86,11 @@ def clsOrphanOrder (pre : State) : Op → Bool
   | .store m => (pre.getMeta m.p.dataId).isNone && pre.orders.any (fun o => o.dataId = m.p.dataId && o.status ≠ OrderCompleted)
   | _ => false
 
-def classOf (pre : Sys) (op : Op) : String :=
+/-- `origin` says how the residue present in `pre` came about (tracked by the driver along the history):
+    "failed-tx" / "simulated-tx" is finding F06; a residue left by a *successful* staking transaction is not -/
+def classOf (pre : Sys) (op : Op) (origin : String := "failed-tx") : String :=
   if clsOrphanOrder pre.st op then "orphan-order"
-  else if clsStaleGlobal pre && isStakingOp op then "stale-global"
+  else if clsStaleGlobal pre && isStakingOp op then (if origin = "ok-tx" then "stale-global-after-ok-tx" else "stale-global")
   else if clsMigrateRenew pre.st op then "migrate-renew" else "none"
 
 /-! ### C09: which data models may a request change -/
@@ -199,10 +201,16 @@ def faultViolations (pre post : State) (op : Op) : List String :=
 def checkState (e : Env) (s : State) : List (String × String) :=
   (violators e s).filterMap (fun (p, c, recs) => if recs.isEmpty then none else some (p, s!"clause={c} cls=genesis rec={recs}"))
 
-def checkStep (e : Env) (pre : Sys) (op : Op) (res : Res) (post : Sys) : List (String × String) :=
+/-- how a residue of the package variable created by this step came about ("" = none created) -/
+def residueOrigin (pre : Sys) (op : Op) (res : Res) (post : Sys) : String :=
+  if pre.global = 0 && post.global ≠ 0 then
+    (match op, res with | .sim _, _ => "simulated-tx" | _, .ok => "ok-tx" | _, _ => "failed-tx")
+  else ""
+
+def checkStep (e : Env) (pre : Sys) (op : Op) (res : Res) (post : Sys) (origin : String := "failed-tx") : List (String × String) :=
   let vpre := violators e pre.st
   let vpost := violators e post.st
-  let cls := classOf pre op
+  let cls := classOf pre op origin
   let stateHits := (vpost.zip vpre).filterMap (fun ((p, c, rpost), (_, _, rpre)) =>
     let fresh := rpost.filter (fun r => !rpre.contains r)
     if fresh.isEmpty then none else some (p, s!"clause={c} cls={cls} rec={fresh}"))
@@ -296,7 +304,10 @@ def checkStep (e : Env) (pre : Sys) (op : Op) (res : Res) (post : Sys) : List (S
    | .binding m, .ok => if m.proofNamesDid then [] else [("C17", "clause=proofNamesDid cls=unbound-message")]
    | _, _ => []) ++
   -- C03/C01: a package-variable residue is created by this step (it outlives the transaction)
-  (if pre.global = 0 && post.global ≠ 0 then [("C03", s!"clause=globalResidue cls={match op, res with | .sim _, _ => "simulated-tx" | _, .ok => "ok-tx" | _, _ => "failed-tx"}")] else []) ++
+  (if pre.global = 0 && post.global ≠ 0 then [("C03", s!"clause=globalResidue cls={residueOrigin pre op res post}")] else []) ++
+  -- C20: a staking message that succeeds leaves nothing in process memory for the next role decision
+  -- (`verifySuper_resets`): otherwise that decision no longer depends on committed state alone
+  (if pre.global = 0 && post.global ≠ 0 && res = .ok && isStakingOp op then [("C20", "clause=residueAfterOkStaking cls=none")] else []) ++
   -- C12: every unfinished order has a pending re-examination after each block; the class names the
   -- known stop condition `height + timeout >= createdAt + duration` of HandleTimeoutOrder (finding F15)
   (if isBlockEnd op && res = .ok then
